@@ -73,7 +73,7 @@ def make_awaitable(sim, log, name, n, value, coro, exc=None):
 
 # --------------------------------------------------------------------------- any_iter
 def gen_any_iter(ch):
-    sc = {"kind": "any_iter", "outer_aw": ch.draw(2), "container": ch.draw(3), "item_aw": ch.draw(2),
+    sc = {"kind": "any_iter", "outer_aw": ch.draw(2), "container": ch.draw(5), "item_aw": ch.draw(2),
           "n": ch.draw(7), "susp": [ch.draw(3) for _ in range(3)], "coro": ch.draw(3)}
     sc["steps"] = ch.draw(sc["n"] + 2)
     return sc
@@ -97,7 +97,34 @@ async def run_any_iter(sc, sim, res, tag):
                 if sc["susp"][0]:
                     await sim.suspend(PAUSE, None, "stream")
                 yield it
-        inner = agen()
+
+        if sc["container"] == 2:
+            inner = agen()
+        elif sc["container"] == 3:
+            # an async iterable that is not its own iterator
+            class Stream:
+                def __aiter__(self):
+                    return agen()
+
+            inner = Stream()
+        else:
+            # a class-based async iterator
+            class Cursor:
+                def __init__(self):
+                    self.i = 0
+
+                def __aiter__(self):
+                    return self
+
+                async def __anext__(self):
+                    if sc["susp"][0]:
+                        await sim.suspend(PAUSE, None, "stream")
+                    if self.i >= len(items):
+                        raise StopAsyncIteration
+                    self.i += 1
+                    return items[self.i - 1]
+
+            inner = Cursor()
     if sc["outer_aw"]:
         outer = make_awaitable(sim, log, ("outer",), sc["susp"][1], inner, sc["coro"])
     else:
@@ -203,7 +230,10 @@ def gen_apply(ch):
     return {"kind": "apply", "npos": ch.draw(5), "nkw": ch.draw(4), "susp": [ch.draw(3) for _ in range(3)],
             "coro": ch.draw(3), "fails": ch.chance(1, 6), "shared": ch.chance(1, 4),
             # keyword names, some of them names the adapter may use for its own parameters
-            "names": [ch.draw(8) for _ in range(3)]}
+            "names": [ch.draw(8) for _ in range(3)],
+            # the function: def | async def | partial(async def) | object whose call returns an awaitable -
+            # apply returns *the function's result*, which for the last three is an awaitable left to the caller
+            "func": ch.weighted([3, 1, 1, 1])}
 
 
 async def run_apply(sc, sim, res, tag):
@@ -235,10 +265,30 @@ async def run_apply(sc, sim, res, tag):
             raise fault
         return ("result", args, tuple(sorted(kwargs.items())))
 
-    aw = L.apply(func, *pos, **kws)
+    async def afunc(*args, **kwargs):
+        log.append(("func_body",))
+        return func(*args, **kwargs)
+
+    async def afunc2(_marker, *args, **kwargs):
+        return await afunc(*args, **kwargs)
+
+    class FuncObj:
+        def __call__(self, /, *args, **kwargs):
+            return Aw(sim, log, ("func_result",), 1, lambda n: func(*args, **kwargs))
+
+    target = (func, afunc, functools.partial(afunc2, None), FuncObj())[sc.get("func", 0)]
+    aw = L.apply(target, *pos, **kws)
     res["type_ok"] = hasattr(aw, "__await__")
     try:
-        res["got"] = ("ok", await aw)
+        value = await aw
+        if sc.get("func", 0):
+            # the function's own result: an awaitable that nobody has entered yet
+            if not hasattr(value, "__await__") or ("func_body",) in log or ("enter", ("func_result",)) in log:
+                res["got"] = ("function_result_was_awaited_by_apply", repr(value))
+                res["expected"] = ("the awaitable the function returned",)
+                return
+            value = await value
+        res["got"] = ("ok", value)
     except InjectedFault as err:
         res["got"] = ("raised", err is fault)
     res["expected"] = ("raised", True) if sc["fails"] else ("ok", ("result", tuple(pos_vals), tuple(sorted(kw_vals.items()))))
